@@ -16,7 +16,9 @@ from ..ref import wlprint, objtable as ot
 from . import c04
 
 CHATTER = ['', 'hello', '  padded  ', '\tTab padded\t', '[123] not a message', 'wl_foo@3.bar()',
-           '[ 123.456] discarded wl_foo@3.bar(1)', 'x' * 200, 'é… ünï', '[1000.000]', '   ']
+           '[ 123.456] discarded wl_foo@3.bar(1)', 'x' * 200, 'é… ünï', '[1000.000]', '   ',
+           # characters that some line splitters (str.splitlines, codecs readers) treat as line ends; a very long line
+           'form\x0cfeed', 'unit\x1fsep \x1c \x85 next', 'line\u2028sep \u2029 par', 'y' * 20000]
 
 
 def _m(t, sent, iface, oid, name, args, conn=None):
@@ -68,16 +70,26 @@ class Reader:
     """Text reader delivering `text` line by line; records how many items exist at each readline()."""
 
     def __init__(self, text, items):
-        self.lines = text.splitlines(keepends=True)
+        self.lines = [l + '\n' for l in text.split('\n')]       # only \n ends a line of libwayland output
+        if self.lines[-1] == '\n':
+            self.lines.pop()
+        else:
+            self.lines[-1] = self.lines[-1][:-1]
         self.i = 0
         self.items = items
         self.marks = []
 
-    def readline(self):
+    def readline(self, size=-1):
+        # the io protocol: at most `size` characters when a limit is given; a call is a request for more input
+        if getattr(self, 'rest', ''):
+            l, self.rest = self.rest[:size], self.rest[size:]
+            return l
         self.marks.append(len(self.items))
         if self.i < len(self.lines):
             l = self.lines[self.i]
             self.i += 1
+            if size is not None and 0 <= size < len(l):
+                l, self.rest = l[:size], l[size:]
             return l
         return ''
 
@@ -203,6 +215,84 @@ def eval_truncation(case):
     return Eval(V, outcome=[case['stream'], len(V)], nontrivial=True, transitions=10)
 
 
+# ---- pipe mode: the real entry point, standard input delivering one line per read --------------
+
+class LineRaw:
+    pass
+
+
+def eval_pipe_pacing(case):
+    """main.piped_input_main with sys.stdin = TextIOWrapper(BufferedReader(raw)) where raw hands out one
+    line per read: whenever the tool asks for more input, everything for the lines already delivered must be out."""
+    import io
+    import sys
+    import main as wd_main
+    from core import ConnectionManager, matcher
+    from core.output import Output
+    from frontends.tui import Controller
+    V = []
+    try:
+        base = base_streams()[case['stream']]
+        lines = list(base)
+        for pos, ci in sorted(case.get('insert', []), key=lambda x: -x[0]):
+            lines.insert(pos, CHATTER[ci])
+        sut.reset_globals()
+        sut.ensure_protocols()
+        items = []
+        out = Output(False, True, ItemStream(items, 'out'), ItemStream(items, 'err'))
+        cm = ConnectionManager()
+        Controller(out, cm, matcher.always, matcher.never)
+        marks = []
+        data = [(l + '\n').encode() for l in lines]
+
+        class Raw(io.RawIOBase):
+            def __init__(self):
+                self.k = 0
+                self.rest = b''
+
+            def readable(self):
+                return True
+
+            def readinto(self, b):
+                if not self.rest:
+                    marks.append(len([i for i in items if kind_of(i) not in ('notice', 'separator')]))
+                    if self.k >= len(data):
+                        return 0
+                    self.rest = data[self.k]
+                    self.k += 1
+                n = min(len(b), len(self.rest))
+                b[:n] = self.rest[:n]
+                self.rest = self.rest[n:]
+                return n
+        saved = sys.stdin
+        sys.stdin = io.TextIOWrapper(io.BufferedReader(Raw()), encoding='utf-8')
+        try:
+            wd_main.piped_input_main(out, cm)
+        finally:
+            sys.stdin = saved
+        # when line k (0-based) is requested, the k lines delivered before it have each produced their one item
+        for k, m in enumerate(marks[:len(lines) + 1]):
+            if m != k:
+                V.append(Violation('pacing.pipe', case, {'lines_delivered': k, 'items_out_when_more_input_was_requested': m}))
+                break
+        total = len([i for i in items if kind_of(i) not in ('notice', 'separator')])
+        if total != len(lines):
+            V.append(Violation('conservation.pipe', case, {'lines': len(lines), 'items': total}))
+    except Exception:
+        V.append(sut.exc_violation(case))
+    return Eval(V, outcome=[case['stream'], len(V)], nontrivial=True, transitions=len(case.get('insert', [])) + 8)
+
+
+def gen_pipe(tier):
+    for name, base in base_streams().items():
+        yield {'stream': name, 'insert': []}
+        for pos in range(len(base) + 1):
+            for ci in range(len(CHATTER)):
+                if tier == 'quick' and (pos + ci) % 3:
+                    continue
+                yield {'stream': name, 'insert': [[pos, ci]]}
+
+
 def gen_chatter(tier):
     maxdev = 1 if tier == 'quick' else 2
     for name, base in base_streams().items():
@@ -238,6 +328,8 @@ def run(run, tier, seed):
     run.add_part('chatter', res)
     res = explore.prod(lambda: gen_trunc(tier), eval_truncation, seed=seed, bound={'truncation': 'every character'})
     run.add_part('truncation', res)
+    res = explore.prod(lambda: gen_pipe(tier), eval_pipe_pacing, seed=seed, bound={'one_line_per_read': True})
+    run.add_part('pipe_pacing', res)
     run.rule = ('deviation-bounded: 4 well-formed base streams; every placement of <=k chatter lines from an alphabet of %d '
                 'x suppress x final newline; truncation at every character offset; non-trivial = at least one deviation'
                 % len(CHATTER))
@@ -249,4 +341,8 @@ def run(run, tier, seed):
 def replay(case):
     sut.bind()
     sut.ensure_protocols()
-    return (eval_truncation(case) if 'cut' in case else eval_chatter(case)).viols
+    if 'cut' in case:
+        return eval_truncation(case).viols
+    if 'suppress' not in case:
+        return eval_pipe_pacing(case).viols
+    return eval_chatter(case).viols
